@@ -38,7 +38,7 @@ ASSUMPTIONS = [
     "the peer's messages are template messages allowed over UDP; the session manager is a stub (no HTTP)",
     "retry budget is the default 10 in half of the runs and 3 in the others",
 ]
-MUST_REACH = {"sequences_with_a_first_subscriber_raising_cancelled": 20, "acks_riding_on_retransmissions": 30, "regions_registered_again_at_the_same_address": 10, "refused_sends_before_good_ones": 30, "packetacks_with_only_appended_acks": 30, "reliable_arrivals": 1000, "duplicate_arrivals": 200, "unreliable_arrivals": 500, "acks_sent_checked": 1000,
+MUST_REACH = {"pings_from_the_peer": 100, "sequences_numbering_from_just_below_a_power_of_two": 50, "sequences_with_a_first_subscriber_raising_cancelled": 20, "acks_riding_on_retransmissions": 30, "regions_registered_again_at_the_same_address": 10, "refused_sends_before_good_ones": 30, "packetacks_with_only_appended_acks": 30, "reliable_arrivals": 1000, "duplicate_arrivals": 200, "unreliable_arrivals": 500, "acks_sent_checked": 1000,
               "sends_completed_by_appended_ack": 50, "sends_completed_by_packetack": 50, "budgets_exhausted": 5,
               "region_level_duplicates_checked": 100, "reordered_first_arrivals": 100, "session_level_duplicates_checked": 100, "ids_checked_increasing": 1000, "long_circuit_retransmissions": 100, "sends_of_prenumbered_messages": 50, "sequences_with_fractional_resend_interval": 10}
 
@@ -102,6 +102,13 @@ def _run_sequence(ctx, rng, seed, reuse=None):
         transport.packets = []
         ctx.count("regions_registered_again_at_the_same_address")
     tries = rng.choice([3, 10])
+    first_client_id = 0
+    if reuse is None:
+        # a circuit numbers its packets from wherever it stands: also shortly before the magnitudes at which ids change width
+        first_client_id = [0, 0, 0, 250, 2 ** 16 - 6, 2 ** 24 - 6, 2 ** 31 - 6][seed % 7]
+        region.circuit.packet_id_base = first_client_id
+        if first_client_id > 255:
+            ctx.count("sequences_numbering_from_just_below_a_power_of_two")
     calls = {}   # (level, kind, packet id) -> count
 
     def mk_sub(level, kind):
@@ -138,7 +145,7 @@ def _run_sequence(ctx, rng, seed, reuse=None):
     pending = {}             # client's own reliable sends: packet id -> [future, last_sent, tries_left]
     history = []
     now = 0.0
-    last_client_id = -1
+    last_client_id = first_client_id - 1
     wit_base = {"sequence_seed": seed, "tries": tries}
     # which acks reached the client so far (for 'completed exactly when')
     n_events = rng.randint(60, 160)
@@ -287,6 +294,32 @@ def _run_sequence(ctx, rng, seed, reuse=None):
             msgs = client_packets()
             check_ids(msgs)
             after_acks(set(blocks) | set(acks), "packetack")
+            continue
+        if 0.75 <= r < 0.80 and rng.random() < 0.35:
+            # the peer's periodic ping: it names the oldest packet it still waits to hear about (everything older has been
+            # acknowledged to it) - copies of those older packets may still be in flight and must not be delivered again
+            pid = next_peer_id
+            next_peer_id += 1
+            oldest = rng.choice([next_peer_id, next_peer_id, max(seen_rel_ids) if seen_rel_ids else next_peer_id, 0])
+            m = Message("StartPingCheck", Block("PingID", PingID=pid & 0xFF, OldestUnacked=oldest), packet_id=pid, flags=0)
+            history.append(("ping", pid, oldest))
+            # (the region answers pings from a coroutine handler: the datagram has to arrive on a running loop)
+
+            async def _arrive():
+                feed(m)
+                for _ in range(3):
+                    await _asyncio.sleep(0)
+            try:
+                loop = _asyncio.get_event_loop_policy().get_event_loop()
+            except Exception:
+                loop = _asyncio.new_event_loop()
+                _asyncio.set_event_loop(loop)
+            loop.run_until_complete(_arrive())
+            ctx.count("pings_from_the_peer")
+            msgs = client_packets()
+            if not any(x.name == "CompletePingCheck" for x in msgs):
+                ctx.count("pings_not_answered")
+            check_ids(msgs)
             continue
         if r < 0.80 and rng.random() < 0.2:
             # a send the caller got wrong (a variable left unset / a value that does not fit): it is refused with an exception
